@@ -48,45 +48,47 @@ Theorem genio_plan_correct : forall start count stride,
 Proof. exact genio_positions. Qed.
 Print Assumptions genio_plan_correct.
 
-(** Out-of-range requests on a fixed-size dataset (model level, for ALL ranks, shapes and requests):
-    (1) SDreaddata without stride, and SDwritedata with stride NULL or all strides 1: positive counts and
-        some start_i < 0 or start_i + count_i > extent_i  ==>  FAIL.  The proof follows the code: NCcoordck rejects
-        the start, or NCvcmaxcontig rejects an edge, or (NCvcmaxcontig having stopped validating at the first
-        short edge) the ripple counter reaches a position that NCcoordck rejects -- lemma vario_oob_fails, an
-        induction over vario_loop using vcmaxcontig_sound.
-    (2) SDreaddata with a stride array: start_i + (count_i-1)*stride_i >= extent_i in ANY dimension ==> FAIL before
-        any transfer, dataset untouched.
-    (3) the regenerated tests mean: stride check <=> reach >= extent; NCcoordck accepts <=> inside the shape.
-    PARTIAL -- still missing: strided SDwritedata and strided reads with a negative start (induction over
-    genio_loop: every visited position is an NCvario call to which vario_oob_fails applies), record variables,
-    and, as a theorem rather than by construction, that the transfers issued before the failure are blocks
-    p ++ [sk..sk+ek) x whole trailing dimensions at in-shape odometer positions p, i.e. cells of the requested
-    region (this is how vario_plan_correct is proved; vario_loop transfers only at positions NCcoordck accepted). *)
+(** Out-of-range requests on a fixed-size dataset, model level, for ALL ranks >= 1, shapes and requests, in exactly
+    the terms of the specification (S returns RFail iff counts, strides >= 1 and [all4 dim_in start stride count shape]
+    is false): SDreaddata and SDwritedata, with stride NULL, all-ones or any strides >= 1, return FAIL whenever some
+    start_i < 0 or start_i + (count_i - 1) * stride_i >= extent_i.  The proof follows the code: SDreaddata's stride
+    check, else NCgenio's odometer (genio_loop induction: every visited position is an NCvario call), else inside
+    NCvario: NCcoordck rejects the start, or NCvcmaxcontig rejects an edge, or -- NCvcmaxcontig having stopped
+    validating at the first short edge -- the ripple counter reaches a position NCcoordck rejects (vario_loop
+    induction, vcmaxcontig_sound, oob_bad_position / strided_oob_cell).
+    PARTIAL -- missing: (a) the clause "no cell outside the requested region is modified" as a theorem (by
+    construction vario_loop transfers only blocks p ++ [sk..sk+ek) x whole trailing dimensions at positions p that
+    NCcoordck accepted, which vario_plan_correct shows to be cells of the region; the partial write inside the
+    region is real, see ex_oob); (b) record variables (dimension 0 is growable on write, bounded by numrecs on
+    read). *)
 Theorem out_of_range_rejected_partial :
-  (forall m start stride count,
+  (forall m us start stride count,
      is_recvar m = false -> (0 < length (m_shape m))%nat ->
      length start = length (m_shape m) -> length count = length (m_shape m) ->
+     (us = true -> length stride = length (m_shape m) /\ Forall (fun t => 1 <= t) stride) ->
      Forall (fun c => 1 <= c) count ->
-     all4 dim_in start (ones start) count (m_shape m) = false ->
-     exists m' cells tr, sd_read m false start stride count = (m', MRead (-1) cells tr)) /\
+     all4 dim_in start (if us then stride else ones start) count (m_shape m) = false ->
+     exists m' cells tr, sd_read m us start stride count = (m', MRead (-1) cells tr)) /\
   (forall m us start stride count vals,
      is_recvar m = false -> (0 < length (m_shape m))%nat ->
      length start = length (m_shape m) -> length count = length (m_shape m) ->
+     (us = true -> length stride = length (m_shape m) /\ Forall (fun t => 1 <= t) stride) ->
      Forall (fun c => 1 <= c) count ->
-     us = false \/ forallb (fun t => t =? 1) stride = true ->
-     all4 dim_in start (ones start) count (m_shape m) = false ->
+     all4 dim_in start (if us then stride else ones start) count (m_shape m) = false ->
      exists m' tr, sd_write m us start stride count vals = (m', MRet (-1) tr)) /\
+  (* strided reads reaching the extent are rejected before any transfer, dataset untouched *)
   (forall m start stride count,
      is_recvar m = false -> (0 < length (m_shape m))%nat ->
      length start = length (m_shape m) -> length stride = length (m_shape m) -> length count = length (m_shape m) ->
      all4 reach_in start stride count (m_shape m) = false ->
      sd_read m true start stride count = (m, MRead (-1) [] [])) /\
+  (* what the regenerated tests mean *)
   (forall t c d s, truth (sdread_stride_bad0 t c d s) = (d <=? reach s t c)) /\
   (forall t c d s, truth (sdread_stride_badi t c d s) = (d <=? reach s t c)) /\
   (forall c shape, length c = length shape ->
      any2 coordck_bad c shape = negb (all3 (fun x d _ => (0 <=? x) && (x <? d)) c shape c)).
 Proof.
-  split. exact sd_read_unit_rejected. split. exact sd_write_unit_rejected. split. exact sd_read_strided_rejected.
+  split. exact sd_read_rejected. split. exact sd_write_rejected. split. exact sd_read_strided_rejected.
   split. exact stride_check_spec0. split. exact stride_check_speci. exact any2_coordck.
 Qed.
 Print Assumptions out_of_range_rejected_partial.
@@ -190,6 +192,14 @@ Example ex_oob :
   acc_tr (snd (vario true [1; 1] [3; 2] (mkAcc (m_init [3; 4] false DFNT_UINT8) [] [] (map Val [1;2;3;4;5;6]))))
     = [TWrite 0 5; TWrite 5 2; TWrite 7 5; TWrite 9 2].
 Proof. vm_compute. repeat split; auto. repeat constructor; discriminate. Qed.
+
+(** a strided write reaching outside: 3x4 dataset, start (0,1) stride (2,2) count (2,2): column 1+2 = 3 ok,
+    count (2,3) reaches column 5 *)
+Example ex_oob_strided :
+  all4 dim_in [0; 1] [2; 2] [2; 3] [3; 4] = false /\
+  snd (sd_write (m_init [3; 4] false DFNT_UINT8) true [0; 1] [2; 2] [2; 3] [1;2;3;4;5;6]) =
+    MRet (-1) [TWrite 0 1; TWrite 1 1; TWrite 2 10; TWrite 3 1].
+Proof. vm_compute. split; reflexivity. Qed.
 
 (** the whole model and the specification on one history: strided write, out-of-range read, full read *)
 Example ex_history :
